@@ -84,7 +84,21 @@ var (
 	netC01SyncKinds func(s *netSim, h uint64, ht *netHeight, first, second *types.Block, kind string) (*types.Block, *types.Block, bool)
 	netC01ByzCommit func(s *netSim, h uint64, commit *types.Commit) (*types.Commit, string) // forged LastCommit of a Byzantine proposal
 	netC01NoteBlock func(s *netSim, blk *types.Block, kind string)                          // a Byzantine block and how it was made
+	netC01ByzExtra  func(s *netSim, tgt *netNode, b int, h uint64, round uint32) bool      // additional Byzantine strategies (true = acted)
+	netC01OnCommit  func(s *netSim, nd *netNode, ht *netHeight, seen *types.Commit)          // oracles on a correct node's commit
 )
+
+// ---- C04 section: hooks filled in by verif_c04_test.go, which is part of C04's overlay only (nil in
+// C01's test binary: the C01 runs are exactly what they were).
+var (
+	netC04AfterStep func(s *netSim, nd *netNode, what string)           // state oracles after every input of a node
+	netC04Tock      func(s *netSim, nd *netNode, ti timeoutInfo) func() // called before handleTimeout; the result after it
+	netC04Extra     func(o *netOut, r *netRand, idx int, k int)         // k-th direct family case (no network), case index idx
+	netC04ExtraN    func(n int) int                                     // number of direct family cases after n runs
+	netC04Facts     func() string                                       // Generated/C04Facts.v (-facts)
+)
+
+// ---- end of C04 section
 
 type netRand struct{ s uint64 }
 
@@ -274,6 +288,7 @@ type netTicker struct {
 	deadline time.Duration // virtual time at which the pending timeout fires in the synchronous phase
 	tocks    []timeoutInfo // fired, not yet handled by the receive routine (tockChan)
 	trans    timeoutInfo   // the transcription of the filter, cross-checked against the real routine
+	stuck    bool          // C04 section: the real routine did not answer within netTickWait
 }
 
 func netNewTicker(sim *netSim, node int) *netTicker {
@@ -295,6 +310,11 @@ func (t *netTicker) Stop() error              { return nil }
 func (t *netTicker) Chan() <-chan timeoutInfo { return nil }
 func (t *netTicker) SetLogger(log.Logger)     {}
 
+// C04 section: the only wall-clock wait of the harness.  It is reached only when the timeoutRoutine does
+// not read its tick channel at all (a failure); generous, so that a heavily loaded machine cannot
+// produce it, and paid once per ticker (a ticker that did not answer is not asked again).
+const netTickWait = 120 * time.Second
+
 func (t *netTicker) waitReceived(n int) bool {
 	done := make(chan struct{})
 	go func() {
@@ -308,12 +328,15 @@ func (t *netTicker) waitReceived(n int) bool {
 	select {
 	case <-done:
 		return true
-	case <-time.After(20 * time.Second):
+	case <-time.After(netTickWait):
 		return false
 	}
 }
 
 func (t *netTicker) ScheduleTimeout(newti timeoutInfo) {
+	if t.stuck { // C04 section: see netTickWait
+		return
+	}
 	t.lg.mu.Lock()
 	before := t.lg.scheduled
 	t.lg.mu.Unlock()
@@ -323,6 +346,7 @@ func (t *netTicker) ScheduleTimeout(newti timeoutInfo) {
 	t.real.ScheduleTimeout(timeoutInfo{Duration: time.Hour, Height: 0, Round: 0, Step: 0})
 	t.sent += 2
 	if !t.waitReceived(t.sent) {
+		t.stuck = true
 		t.sim.fail("harness-ticker-stuck", fmt.Sprintf("node=%d the timeoutRoutine did not answer", t.node))
 		return
 	}
@@ -608,6 +632,7 @@ type netSim struct {
 	voteClock int64
 	lastCfg *configs.ConsensusConfig
 	c01     interface{} // state of verif_c01_test.go's scripted families and oracles
+	c04     interface{} // C04 section: state of verif_c04_test.go's oracles
 }
 
 func (s *netSim) fail(class, detail string) {
@@ -756,6 +781,9 @@ func (s *netSim) onCommit(nd *netNode, block *types.Block, ps *types.PartSet, se
 		return
 	}
 	ht.commits = append(ht.commits, netCommitRec{node: nd.id, round: seen.Round, bid: ht.bid(seen.BlockID), hash: block.Hash()})
+	if s.mode == "C01" && netC01OnCommit != nil {
+		netC01OnCommit(s, nd, ht, seen)
+	}
 	// C04: the block time rule on the real LastCommit (cstate.MedianTime) against the Coq transcription
 	if s.mode == "C04" && len(ht.commits) == 1 && block.Height() > 1 {
 		if pht := s.hs[block.Height()-1]; pht != nil && block.LastCommit() != nil && len(block.LastCommit().Signatures) == len(pht.powers) {
@@ -912,6 +940,9 @@ func (s *netSim) guard(nd *netNode, what string, f func()) {
 		if netC01AfterStep != nil && s.mode == "C01" {
 			netC01AfterStep(s, nd, what)
 		}
+		if netC04AfterStep != nil && s.mode == "C04" { // C04 section
+			netC04AfterStep(s, nd, what)
+		}
 	}
 }
 
@@ -1046,7 +1077,14 @@ func (s *netSim) deliver(nd *netNode, m *netMsg, peer string) {
 func (s *netSim) handleTock(nd *netNode, k int) {
 	ti := nd.ticker.tocks[k]
 	nd.ticker.tocks = append(nd.ticker.tocks[:k:k], nd.ticker.tocks[k+1:]...)
+	var c04After func() // C04 section: the observation of handleTimeout (before the node's own messages are processed)
+	if netC04Tock != nil && s.mode == "C04" && nd.dead == "" {
+		c04After = netC04Tock(s, nd, ti)
+	}
 	s.guard(nd, "timeout", func() { nd.cs.handleTimeout(ti, nd.cs.RoundState) })
+	if c04After != nil {
+		c04After()
+	}
 	s.o.Count(fmt.Sprintf("timeout:step%d", ti.Step))
 	s.settle(nd)
 }
@@ -1306,6 +1344,9 @@ func (s *netSim) byzAct(now bool) {
 	}
 	b := bl[s.r.Intn(len(bl))]
 	round := tgt.cs.Round
+	if s.mode == "C01" && netC01ByzExtra != nil && s.r.Chance(1, 10) && netC01ByzExtra(s, tgt, b, h, round) {
+		return
+	}
 	switch s.r.Pick(50, 12, 8, 12, 6, 6, 6) {
 	case 1:
 		if round > 1 {
@@ -1627,6 +1668,12 @@ func (s *netSim) restart(nd *netNode) {
 		// follows is not a consequence of this failure
 		st = want.Copy()
 		s.o.Count("restart:state-repaired-after-mismatch")
+	} else if !netSamePriorities(st.Validators, want.Validators) {
+		// C04 section: same root cause (Store.Load returns Validators with other proposer priorities), not
+		// visible in round 1: the restarted node would expect another proposer in a later round of the height
+		s.fail("restart-proposer-mismatch", fmt.Sprintf("node=%d h=%d restarted node has other proposer priorities (same proposer in round 1, another one in a later round)", nd.id, nd.cs.Height))
+		st = want.Copy()
+		s.o.Count("restart:state-repaired-after-mismatch")
 	}
 	nd.eb.Stop()
 	nn := s.newNode(nd.id, st, nd)
@@ -1637,6 +1684,19 @@ func (s *netSim) restart(nd *netNode) {
 	s.nodes[nd.id] = nn
 	s.o.Count("restart")
 	s.o.Mark("restart")
+}
+
+// C04 section: the proposer priorities of two validator sets with the same members are the same
+func netSamePriorities(a, b *types.ValidatorSet) bool {
+	if a == nil || b == nil || len(a.Validators) != len(b.Validators) {
+		return false
+	}
+	for i := range a.Validators {
+		if !a.Validators[i].Address.Equal(b.Validators[i].Address) || a.Validators[i].ProposerPriority != b.Validators[i].ProposerPriority {
+			return false
+		}
+	}
+	return true
 }
 
 func (s *netSim) adversarial(budget int) {
@@ -2838,7 +2898,11 @@ func netRun(o *netOut, r *netRand, idx int, mode string) {
 
 func netMain(t *testing.T, mode string) {
 	if *netFac != "" {
-		os.WriteFile(*netFac, []byte("(* no source-derived facts *)\n"), 0o644)
+		facts := "(* no source-derived facts *)\n"
+		if mode == "C04" && netC04Facts != nil { // C04 section
+			facts = netC04Facts()
+		}
+		os.WriteFile(*netFac, []byte(facts), 0o644)
 		return
 	}
 	if *netDir == "" {
@@ -2858,6 +2922,19 @@ func netMain(t *testing.T, mode string) {
 		}
 		if p := netGuarded(func() { netRun(o, root.Fork(uint64(i)), i, mode) }); p != "" {
 			o.Fail(0, "harness-panic", strings.Split(p, "\n")[0])
+		}
+	}
+	// C04 section: the direct families (ticker routine, handleTimeout grid, timeout arithmetic, weighted
+	// median) follow the runs, with case indices n, n+1, ...
+	if mode == "C04" && netC04Extra != nil {
+		for k := 0; k < netC04ExtraN(*netN); k++ {
+			idx := *netN + k
+			if *netOnly >= 0 && *netOnly != idx {
+				continue
+			}
+			if p := netGuarded(func() { netC04Extra(o, root.Fork(uint64(idx)), idx, k) }); p != "" {
+				o.Fail(0, "harness-panic", strings.Split(p, "\n")[0])
+			}
 		}
 	}
 	o.Close()
